@@ -505,12 +505,55 @@ Proof.
     + apply Hcl; assumption.
 Qed.
 
-Definition fixed_op (o : op) : bool := match o with OTailCallOld _ _ => false | _ => true end.
+(* the as-found tail call is correct only under its stronger guard (no closure refers to a variable
+   instance of the frame: the compiler would have had to close explicitly) *)
+Lemma no_handle_in_frame_spec t : no_handle_in_frame t = true ->
+  forall j x, sfp t <= j < ssp t -> (x < snh t)%nat -> shandles t x <> sslots t j.
+Proof.
+  unfold no_handle_in_frame. rewrite forallb_forall. intros H j x Hj Hx.
+  specialize (H (j - sfp t)).
+  assert (I : In (j - sfp t) (zseq (ssp t - sfp t))).
+  { unfold zseq. apply in_map_iff. exists (Z.to_nat (j - sfp t)). split; [lia|]. apply in_seq. lia. }
+  specialize (H I). replace (sfp t + (j - sfp t)) with j in H by lia.
+  apply (no_handle_on_spec _ _ H x Hx).
+Qed.
 
-Lemma sim_step s t o : R s t -> fixed_op o = true -> ok t o = true -> fits s o = true ->
+Lemma sim_tailcall_old s t a lc : R s t -> ok t (OTailCallOld a lc) = true ->
+  R (step s (OTailCallOld a lc)) (sstep t (OTailCallOld a lc)).
+Proof.
+  intros HR Hok. pose proof (step_oinv s (OTailCallOld a lc) (r_oinv _ _ HR)) as HO'.
+  assert (NF : no_handle_in_frame t = true) by (cbn [ok] in Hok; lia).
+  pose proof (no_handle_in_frame_spec t NF) as NH.
+  setup HR s t. cbn [step sstep ok] in *. fldsin Hok. fldsin NH.
+  assert (Ha : 0 <= a) by lia. assert (Hlc : 0 <= lc) by lia. assert (Hp : p' = f' + lc + a) by lia.
+  destruct (tc_copy_spec m (b + W * f') (b + W * p') a Ha ltac:(unfold W; lia)) as [TC1 TC2].
+  constructor; flds; unfold W in *; try reflexivity; try lia; try assumption; try exact HO'.
+  - intros j Hj. destruct ((f' <=? j) && (j <? f' + a)) eqn:C.
+    + replace ((nx <=? nx + Z.to_nat (j - f'))%nat && (nx + Z.to_nat (j - f') <? nx + Z.to_nat a)%nat) with true by lia.
+      replace (b + 24 * j) with (b + 24 * f' + 24 * (j - f')) by lia. rewrite TC1 by lia.
+      replace (b + 24 * p' - 24 * a + 24 * (j - f')) with (b + 24 * (p' - a + Z.of_nat (nx + Z.to_nat (j - f') - nx))) by lia.
+      apply Hmem. lia.
+    + fsl j. replace ((nx <=? sl j)%nat && (sl j <? nx + Z.to_nat a)%nat) with false by lia.
+      rewrite TC2 by (intros k0 Hk0; lia). apply Hmem. lia.
+  - intros j1 j2 H1 H2.
+    destruct ((f' <=? j1) && (j1 <? f' + a)) eqn:C1; destruct ((f' <=? j2) && (j2 <? f' + a)) eqn:C2; intros Q.
+    all: try lia. all: try (fsl j1; lia). all: try (fsl j2; lia). all: try (apply Hinj; try lia; exact Q).
+  - intros j Hj. destruct ((f' <=? j) && (j <? f' + a)) eqn:C; [lia|]. fsl j. lia.
+  - intros x Hx. destruct (Hfh x Hx). split; lia.
+  - intros x a0 Hx Ha0. destruct (Hop x a0 Hx Ha0) as [j [E1 [E2 E3]]].
+    assert (j < f') by (destruct (Z.ltb_spec j f') as [|G]; [assumption|exfalso; apply (NH j x ltac:(lia) Hx); symmetry; exact E3]).
+    exists j. split; [exact E1|]. split; [lia|].
+    replace ((f' <=? j) && (j <? f' + a)) with false by lia. exact E3.
+  - intros x v Hx Hv. destruct (Hcl x v Hx Hv) as [E1 E2]. destruct (Hfh x Hx) as [F1 F2].
+    split.
+    + replace ((nx <=? hd' x)%nat && (hd' x <? nx + Z.to_nat a)%nat) with false by lia. exact E1.
+    + intros j Hj. destruct ((f' <=? j) && (j <? f' + a)) eqn:C; [lia|]. apply E2. lia.
+Qed.
+
+Lemma sim_step s t o : R s t -> ok t o = true -> fits s o = true ->
   R (step s o) (sstep t o).
 Proof.
-  intros HR Hfx Hok Hfit. destruct o; try discriminate Hfx.
+  intros HR Hok Hfit. destruct o.
   - apply sim_push; assumption.
   - apply sim_pop; assumption.
   - apply sim_getlocal; assumption.
@@ -524,35 +567,35 @@ Proof.
   - apply sim_grow; assumption.
   - apply sim_newvar; assumption.
   - apply sim_tailcall; assumption.
+  - apply sim_tailcall_old; assumption.
 Qed.
 
-Lemma sim_run : forall l s t, R s t -> forallb fixed_op l = true -> D t l = true -> fits_run s l = true ->
+Lemma sim_run : forall l s t, R s t -> D t l = true -> fits_run s l = true ->
   R (run s l) (srun t l).
 Proof.
-  induction l as [|o r IH]; intros s t HR Hfx HD Hf; [exact HR|].
-  cbn [forallb D fits_run] in Hfx, HD, Hf.
-  apply andb_prop in Hfx. apply andb_prop in HD. apply andb_prop in Hf.
-  destruct Hfx as [X1 X2]. destruct HD as [D1 D2]. destruct Hf as [F1 F2].
+  induction l as [|o r IH]; intros s t HR HD Hf; [exact HR|].
+  cbn [D fits_run] in HD, Hf.
+  apply andb_prop in HD. apply andb_prop in Hf.
+  destruct HD as [D1 D2]. destruct Hf as [F1 F2].
   cbn [run srun fold_left]. apply IH; try assumption. apply sim_step; assumption.
 Qed.
 
 (* UNBOUNDED refinement *)
-Theorem refines : forall b c l, 0 <= c -> forallb fixed_op l = true ->
+Theorem refines : forall b c l, 0 <= c ->
   D init_sst l = true -> fits_run (init_st b c) l = true ->
   out (run (init_st b c) l) = sout (srun init_sst l).
 Proof.
-  intros b c l Hc Hfx HD Hf. apply (r_out _ _ (sim_run l _ _ (R_init b c Hc) Hfx HD Hf)).
+  intros b c l Hc HD Hf. apply (r_out _ _ (sim_run l _ _ (R_init b c Hc) HD Hf)).
 Qed.
 
 (* UNBOUNDED size/growth independence *)
 Theorem run_indep : forall b1 c1 b2 c2 l1 l2, 0 <= c1 -> 0 <= c2 ->
-  forallb fixed_op l1 = true -> forallb fixed_op l2 = true ->
   filter no_grow l1 = filter no_grow l2 ->
   D init_sst l1 = true -> D init_sst l2 = true ->
   fits_run (init_st b1 c1) l1 = true -> fits_run (init_st b2 c2) l2 = true ->
   out (run (init_st b1 c1) l1) = out (run (init_st b2 c2) l2).
 Proof.
-  intros b1 c1 b2 c2 l1 l2 H1 H2 X1 X2 E D1 D2 F1 F2.
-  rewrite (refines b1 c1 l1 H1 X1 D1 F1), (refines b2 c2 l2 H2 X2 D2 F2).
+  intros b1 c1 b2 c2 l1 l2 H1 H2 E D1 D2 F1 F2.
+  rewrite (refines b1 c1 l1 H1 D1 F1), (refines b2 c2 l2 H2 D2 F2).
   rewrite (srun_grow_invariant l1), (srun_grow_invariant l2). fold no_grow. rewrite E. reflexivity.
 Qed.
